@@ -67,3 +67,10 @@ def shard(mon, tier, rng, shard_no, nshards):
         if len(mon.samples) < 3:
             mon.sample({"variant": variant, "cone": case["cone"], "mu": case["mu"], "eps": case["eps"], "P": sorted(tr.alg.P), "rounds": rounds,
                         "stub_mode": case["stub_mode"], "batch": case["batch"]})
+
+
+def replay(mon, rec):
+    def chk(mon, tr):
+        print("premise held:", runchecks.premise_holds(tr), "P =", sorted(tr.alg.P))
+        runchecks.conclusion_c05(mon, tr)
+    runs.replay_runs(mon, rec, chk)
